@@ -51,6 +51,19 @@ def gen_scripts(ctx, quick):
         base.update({"paced": k % 3 != 2, "stallMs": rnd.choice([50, 150]), "paceUs": rnd.choice([200, 2000]),
                      "burst": rnd.choice([700, 1500, 2500])})
         scripts.append(base)
+    # directed: the same tracer code location runs twice in a row, first with tracing off (its lines go out as plain
+    # lines) and then, after the level was lowered, with tracing on (one trace whose main line is that same last line);
+    # the writer is stalled so that both sit next to each other in the buffer
+    def E(kind, p, origin, sev, rep, k, lines, a=0, b=0):
+        return {"kind": kind, "p": p, "origin": origin, "sev": sev, "rep": rep, "k": k, "lines": lines, "a": a, "b": b}
+    for first_level, lines, origin in [(3, [3, 4], "logx"), (2, [3], "logx"), (3, [5, 3, 3], "other"), (4, [4], "other"),
+                                       (2, [2, 6], "logx"), (3, [3], "other")][:(3 if quick else 6)]:
+        ops = [E("setlevel", 0, "logx", first_level, 0, 1, []), E("tracer", 1, origin, 0, 1, 2, lines),
+               E("setlevel", 0, "logx", 1, 0, 3, []), E("tracer", 1, origin, 0, 1, 2, lines, a=1),
+               E("log", 1, origin, 3, 1, 5, []), E("setlevel", 0, "logx", first_level, 0, 6, []),
+               E("tracer", 1, origin, 0, 1, 2, lines, a=1), E("tracer", 1, origin, 0, 1, 2, lines, a=1)]
+        # (free-running writer held up by a slow first write: everything after it is drained in one pass)
+        scripts.append({"np": 1, "ops": ops, "paced": False, "stallMs": 80, "paceUs": 500, "burst": 0, "shutMs": 0, "shut2Ms": 0})
     # two Shutdown callers while a backlog is still being written (slow writer)
     for k in range(3 if quick else 16):
         base = dict(scripts[rnd.randrange(len(scripts))])
